@@ -73,6 +73,7 @@ class Ref(object):
             p += 6
         chars = data[p:p + charcnt]
         p += charcnt
+        self.leaps = leapcnt
         p += 8 * leapcnt
         self.isstd = list(data[p:p + stdcnt])
         p += stdcnt
